@@ -326,6 +326,15 @@ class ScriptedApps:
                         break
             elif op == "set_state":
                 scope["state"][step[1]] = step[2]
+            elif op == "count_and_respond_state":
+                # what a visit counter kept in the connection's state looks like from this request: the value before, then incremented
+                st = scope.get("state")
+                before = st.get("visits", 0) if isinstance(st, dict) else None
+                if isinstance(st, dict):
+                    st["visits"] = before + 1
+                body = ("visits-before=%r keys=%r" % (before, sorted(st) if isinstance(st, dict) else None)).encode()
+                await self._send(send, inst, {"type": "http.response.start", "status": 200, "headers": [(b"content-length", b"%d" % len(body))]})
+                await self._send(send, inst, {"type": "http.response.body", "body": body, "more_body": False})
             elif op == "note":
                 self.trace.ev("app", "note", inst=inst, text=step[1])
             else:
